@@ -110,6 +110,9 @@ def simulated_failure(mode, args):
     if how == 'exit1':                  # an ordinary error: message on stderr, nothing written
         sys.stderr.write('Error: simulated failure\n')
         return 1
+    if how == 'ok-inside-text':         # an error whose diagnostic merely mentions OK inside other text
+        sys.stderr.write('func=xmlSecOpenSSLEvpSignatureVerify:msg=aborted, status is not OK ; giving up\nERROR-NOT-OK\n')
+        return 1
     if how == 'killed':                 # the process dies from a signal (negative return code for the caller)
         import signal
         sys.stderr.flush()
